@@ -229,3 +229,19 @@ Proof.
   split; [reflexivity|]. split; [reflexivity|]. split; [reflexivity|].
   unfold c'. cbn. rewrite Hx, Ps, Pd, Psp, Pdp, Pr, Pk. rewrite u32_add_u32. repeat split.
 Qed.
+
+(* one write on a connection record (Socket.Write, the verif hook): exactly ONE segment, whatever the
+   length - an empty write still emits an empty PSH|ACK, a long one is not cut into pieces *)
+Lemma write_step_frame t k w c :
+  find_key t k = Some c ->
+  exists o c',
+    write_step t k w = Some (tput t c', o) /\
+    data_out c (c_nxt c) w o /\
+    c_nxt c' = u32 (c_nxt c + zlen w) /\ c_rcv c' = c_rcv c /\ c_st c' = c_st c /\ c_key c' = c_key c /\
+    c_una c' = c_una c /\ c_ring c' = c_ring c.
+Proof.
+  intros Hf. unfold find_key in Hf. unfold write_step.
+  destruct (find _ t) as [[c0|]|] eqn:E; try discriminate. inversion Hf; subst c0. clear Hf.
+  unfold conn_write. cbn [send].
+  eexists _, _. split; [reflexivity|]. unfold data_out. cbn. repeat split.
+Qed.
